@@ -281,6 +281,37 @@ theorem cell_card_split_void (ds m g o : List Char)
   split_void ds m g o hds hm hz hthird hopt
 
 open T4V.CC in
+/-- **which material numbers are "zero"**: `cellcard.split` decides void / non-void with `float(token) == 0`, i.e. on
+the *double* the token rounds to.  A decimal written without exponent and with at most 323 fractional digits is zero
+exactly when all its digits are zero (no underflow is possible there: 10^-323 > 2^-1075) … -/
+theorem plain_decimal_zero_iff (ds : List Char) (nfrac : Nat) (h : nfrac ≤ 323) :
+    underflows ds nfrac [] = (digitsNat ds == 0) := by
+  unfold underflows
+  by_cases hd : digitsNat ds = 0
+  · simp [hd]
+  · have hb : (digitsNat ds == 0) = false := by simpa using hd
+    simp only [hb, List.drop_nil]
+    by_cases hn : nfrac ≤ digitsNat (stripSign [])
+    · simp [hn]
+    · have h1 : 10 ^ nfrac ≤ 10 ^ 323 := Nat.pow_le_pow_right (by decide) h
+      have h2 : 10 ^ 323 < 2 ^ 1075 := by decide +kernel
+      have h3 : 2 ^ 1075 ≤ digitsNat ds * 2 ^ 1075 := Nat.le_mul_of_pos_left _ (Nat.pos_of_ne_zero hd)
+      have he : digitsNat (stripSign []) = 0 := rfl
+      have : ¬ (digitsNat ds * 2 ^ 1075 ≤ 10 ^ (nfrac - digitsNat (stripSign []))) := by
+        rw [he, Nat.sub_zero]; omega
+      simp [hn, this]
+
+open T4V.CC in
+/-- … while a non-zero decimal that underflows is "zero" for the split as it is for Python: `1.2e-431` is read as a
+void cell's material, `4.9e-324` (the smallest subnormal) and `2.5e-324` (which rounds up to it) are not, `2.4e-324`
+(below half of it) is -/
+theorem underflowing_material_is_void :
+    floatZero? "1.2e-431".toList = some true ∧ floatZero? "4.9e-324".toList = some false ∧
+    floatZero? "2.5e-324".toList = some false ∧ floatZero? "2.4e-324".toList = some true ∧
+    floatZero? "0.0e5".toList = some true ∧ floatZero? "1e-400".toList = some true := by
+  refine ⟨?_, ?_, ?_, ?_, ?_, ?_⟩ <;> decide +kernel
+
+open T4V.CC in
 /-- **`LIKE n BUT`**: whatever the letter case of `like` and of `but`, the options are what follows the last `but` -/
 theorem cell_card_split_like (ds mid o : List Char) (l i k e x y z : Char)
     (hds : ds ≠ [] ∧ ∀ c ∈ ds, isDigit c = true)
